@@ -583,6 +583,9 @@ func (p *Parser) parseStmt(allowDeclaration bool) (stmt IStmt) {
 				if !p.consume("try-catch statement", CloseParenToken) {
 					return
 				}
+				// the catch parameter shares its scope with the block: keep the uses made in the parameter
+				// apart from the declarations of the block, as in `catch({a=b}){let b}` (see MarkFuncArgs)
+				p.scope.NumArgUses = uint16(len(p.scope.Undeclared))
 			}
 			catch.List = p.parseStmtList("try-catch statement")
 			p.exitScope(parent)
